@@ -752,3 +752,34 @@ func makeStaticDir() (string, error) {
 	}
 	return d, os.WriteFile(filepath.Join(d, "f.txt"), []byte("F"), 0o644)
 }
+
+// countHist: number of histories the bound contains (generator only, nothing is run) - the parent
+// cross-checks it against what the workers report.
+func countHist(b histBound) int64 {
+	var n int64
+	var rec_ func(h []hop)
+	rec_ = func(h []hop) {
+		if worthRunning(h) {
+			n++
+		}
+		if len(h) >= b.MaxLen {
+			return
+		}
+		for _, o := range nextOps(h, b) {
+			rec_(append(h[:len(h):len(h)], o))
+		}
+	}
+	rec_(nil)
+	return n
+}
+
+// histExample: one written-out history for the evidence file.
+func histExample() any {
+	h := []hop{{Op: "M", Prio: 1}, {Op: "R"}, {Op: "G"}, {Op: "M", Kind: 1}, {Op: "Q"}, {Op: "M", Obj: 1, Kind: 1, Prio: 2}, {Op: "R", Obj: 1, Form: 1}}
+	routes, _ := histReference(h)
+	var exp []string
+	for _, r := range routes {
+		exp = append(exp, fmt.Sprintf("route %d: required %v optional %v trace %q", r.Route, r.Required, r.Optional, expectTrace(r)))
+	}
+	return map[string]any{"history": histString(h), "script": histScript(h, "<dir>"), "expected": exp}
+}
